@@ -7,7 +7,7 @@ from ..idx import index
 from ..px import OK, PX, RAISE, Outcomes
 from ..pxv import Obj, Sym
 from ..te import Member, TypeRef
-from .util import self_obj
+from .util import same_class, self_obj
 
 MC = "bellows.multicast"
 NAMED = "bellows.types.named"
@@ -52,7 +52,7 @@ def r15_1(ctx):
     outs = Outcomes(OK((es["SUCCESS"],)), OK((sl["OK"],)), OK((es["ERR_FATAL"],)), OK((es["INVALID_CALL"],)) if "INVALID_CALL" in es else OK((sl["FAIL"],)),
                     RAISE("TimeoutError"), RAISE("EzspError"), RAISE("CancelledError"))
     for free in ({5}, {5, 9}, {0, 1, 2}):
-        px = PX(repo, models=[("self._ezsp.setMulticastTableEntry", outs)], inline=inline_status)
+        px = PX(repo, models=[("self._ezsp.setMulticastTableEntry", outs)], inline=same_class())
 
         def setup():
             return self_obj(cls, {"_multicast": {}, "_available": set(free)}), {"group_id": Sym("g")}
@@ -106,7 +106,7 @@ def r15_2(ctx):
     repo = ctx.repo
     f = repo.func(f"{MC}:Multicast.subscribe")
     cls = repo.cls(MC, "Multicast")
-    px = PX(repo, inline=inline_status)
+    px = PX(repo, inline=same_class())
     for name, mc, free in (("already", {0x10: (Sym("entry"), 3)}, {5}), ("already-full", {0x10: (Sym("entry"), 3)}, set()), ("full", {}, set()),
                            ("full-other", {0x11: (Sym("entry"), 0)}, set())):
         paths = px.explore(f, lambda: (self_obj(cls, {"_multicast": dict(mc), "_available": set(free)}), {"group_id": 0x10}))
@@ -133,7 +133,7 @@ def r15_4(ctx):
     cls = repo.cls(MC, "Multicast")
     es, sl = statuses(ctx)
     outs = Outcomes(OK((es["SUCCESS"],)), OK((sl["OK"],)), OK((es["ERR_FATAL"],)), RAISE("TimeoutError"), RAISE("EzspError"), RAISE("CancelledError"))
-    px = PX(repo, models=[("self._ezsp.setMulticastTableEntry", outs)], inline=inline_status)
+    px = PX(repo, models=[("self._ezsp.setMulticastTableEntry", outs)], inline=same_class())
 
     def setup():
         return (self_obj(cls, {"_multicast": {Sym("g"): (entry_obj(ctx, 1, Sym("g")), 3), Sym("h"): (entry_obj(ctx, 1, Sym("h"), "entry_h"), 4)},
@@ -168,7 +168,7 @@ def r15_4(ctx):
             ctx.violation(f"unsubscribe:{'raise' if p.terminal == 'raise' else 'return'}", f"{key}: {bad}", func=f, trace=p.trace(30))
         else:
             ctx.ok(1, key)
-    for p in PX(repo, inline=inline_status).explore(f, lambda: (self_obj(cls, {"_multicast": {}, "_available": {1}}), {"group_id": Sym("g")})):
+    for p in PX(repo, inline=same_class()).explore(f, lambda: (self_obj(cls, {"_multicast": {}, "_available": {1}}), {"group_id": Sym("g")})):
         aw = [e for e in p.events if e.kind == "await"]
         ctx.require(p.terminal == "return" and isinstance(p.value, Member) and not is_ok(ctx, p.value) and not aw, "unsubscribe:unknown",
                     f"unknown group: {p.terminal} {p.value!r}, writes {len(aw)}", func=f)
@@ -192,7 +192,7 @@ def r15_5(ctx):
                         OK((es["ERR_FATAL"], entry_obj(ctx, 1, Sym(f"x{i}"), f"e{i}"))))
 
     px = PX(repo, models=[("self._ezsp.getConfigurationValue", Outcomes(OK((es["SUCCESS"], 3)))), ("self._ezsp.getMulticastTableEntry", get_entry)],
-            inline=inline_status)
+            inline=same_class())
 
     def setup():
         return self_obj(cls, {"_multicast": {Sym("stale"): (Sym("e"), 9)}, "_available": {8}}), {}
@@ -218,7 +218,7 @@ def r15_5(ctx):
         ctx.require(p.terminal == "return" and got_used == want_used and avail == want_free and len(rd) == 3, key,
                     f"{key}: host ends with groups {got_used!r} and free indices {avail!r}; the scan implies groups {want_used!r} and free {sorted(want_free)}",
                     func=f, trace=p.trace(30))
-    px2 = PX(repo, models=[("self._ezsp.getConfigurationValue", Outcomes(OK((es["ERR_FATAL"], 3))))], inline=inline_status)
+    px2 = PX(repo, models=[("self._ezsp.getConfigurationValue", Outcomes(OK((es["ERR_FATAL"], 3))))], inline=same_class())
     for p in px2.explore(f, setup):
         st = p.store["self"]
         ctx.require(p.terminal == "return" and st.get("_multicast") == {} and st.get("_available") == set(), "scan:size-unreadable",
@@ -246,7 +246,7 @@ def r15_6(ctx):
     for meth, call in (("add_to_group", "app.multicast.subscribe"), ("remove_from_group", "app.multicast.unsubscribe")):
         f = repo.func(f"{dev}:EZSPEndpoint.{meth}")
         ctx.fn(f)
-        px = PX(repo, models=[(call, Outcomes(OK(sl["OK"]), OK(sl["FAIL"]), OK(sl["INVALID_INDEX"])))], inline=lambda g, aw: False,
+        px = PX(repo, models=[(call, Outcomes(OK(sl["OK"]), OK(sl["FAIL"]), OK(sl["INVALID_INDEX"])))], inline=same_class(),
                 facts={"(grp_id in self.member_of)": meth == "remove_from_group"})
         c = repo.cls(dev, "EZSPEndpoint")
         for p in px.explore(f, lambda: (self_obj(c, {}), {"grp_id": Sym("grp_id"), **({"name": None} if meth == "add_to_group" else {})})):
